@@ -110,7 +110,9 @@ def scenario_list(quick):
     # several local events queued behind one outstanding request at A (some of them moot by the time they are replayed)
     out.append(dict(config='match', kinds=('dpd', 'hard', 'acquire'), budget=dict(trigA=3, trigB=1, fault=0)))
     # a rekey after a rekey that was refused (the simultaneous one): state left behind by the first must not count
+    # (and a later, unrelated creation must not act on it either)
     out.append(dict(config='match', kinds=('soft',), budget=dict(trigA=1, trigB=2, fault=0)))
+    out.append(dict(config='match', kinds=('soft', 'acquire'), budget=dict(trigA=2, trigB=1, fault=0) if quick else dict(trigA=2, trigB=2, fault=0)))
     # two IKE_SAs per endpoint for one connection (simultaneous initiation), INVALID_KE retries on the way
     out.append(dict(config='ke-mismatch', start='double', kinds=('acquire', 'soft', 'rekey_ike'),
                     budget=dict(trig=2, fault=0) if quick else dict(trig=3, fault=0)))
@@ -120,8 +122,9 @@ def scenario_list(quick):
 
 
 def label(params):
-    return '%s%s%s/%s' % (params['config'], '+double' if params.get('start') == 'double' else '',
-                          '+timeouts' if params.get('timeouts') else '', ','.join('%s=%s' % kv for kv in sorted(params['budget'].items())))
+    return '%s%s%s%s/%s' % (params['config'], '+double' if params.get('start') == 'double' else '',
+                            '+timeouts' if params.get('timeouts') else '',
+                            (':' + '+'.join(params['kinds'])) if params.get('kinds') else '', ','.join('%s=%s' % kv for kv in sorted(params['budget'].items())))
 
 
 def explore(params, monitors, state_monitors=(), quick=True, max_states=None, jobs=0):
@@ -329,6 +332,71 @@ def m_coll(pre, ev, post):
         yield ('M-coll', '%s:needs-%s' % (lab, need.name),
                '%s (receiver %s in %s) was answered with notifications %s instead of %s' % (
                    lab, ep_pre.name, sa.state.name, got, need.name))
+
+
+# ------------------------------------------------------------------ M-del
+
+def _request_spis(sa):
+    """SPIs named by the outstanding request of an IKE_SA: the CHILD_SA it rekeys and the CHILD_SA it creates"""
+    out = set()
+    if sa.request is None:
+        return out
+    from .world import message_desc
+    try:
+        desc = message_desc(sa.request)
+    except Exception:   # noqa
+        return out
+    for p in desc[6] + desc[7]:
+        if p[0] == 'N' and p[1] == int(NT.REKEY_SA):
+            out.add(p[3])
+        if p[0] == 'SA':
+            for prop in p[1]:
+                if prop[0] in (2, 3):
+                    out.add(prop[1])
+    return out
+
+
+def m_del(pre, ev, post):
+    """an endpoint starts the deletion of a CHILD_SA only for a reason: the kernel reported its hard expiry (now, or
+    queued while another exchange was outstanding), the response just received completed its rekey, or the response just
+    received created it in a way the endpoint cannot accept.  Nothing else takes an SA pair away."""
+    for d in post.step_emitted:
+        desc = d.desc
+        if desc[0] in ('raw', 'enc') or desc[2] != 37 or desc[3]:
+            continue
+        dels = [p for p in desc[7] if p[0] == 'D' and p[1] in (2, 3)]
+        if not dels:
+            continue
+        ep = pre.endpoints[d.sender]
+        if not P.live(ep):
+            continue
+        local = desc[0] if desc[4] else desc[1]
+        sa = next((x for x in ep.controller.ike_sas if bytes(x.my_spi) == local), None)
+        if sa is None:
+            continue
+        if sa.state == S_.DEL_CHILD_REQ_SENT and sa.request is not None and desc[5] == sa.request.message_id:
+            continue                        # a retransmission of the delete request already outstanding
+        allowed = set()
+
+        def inbound_of(spi):
+            c = next((c for c in sa.child_sas if spi in (bytes(c.inbound_spi), bytes(c.outbound_spi))), None)
+            return bytes(c.inbound_spi) if c is not None else None
+        if ev[0] == 'expire' and ev[1] == d.sender and ev[3]:
+            allowed.add(inbound_of(ev[2]))
+        for x in sa.pending_events:
+            if getattr(x[0], '__name__', '') == 'process_expire' and len(x) > 2 and x[2]:
+                allowed.add(inbound_of(bytes(x[1])))
+        kind, dg = event_kind(pre, ev)
+        if kind == 'response':
+            allowed |= _request_spis(sa)
+        COVER['M-del:child-deletions-started'] += 1
+        for p in dels:
+            for spi in p[2]:
+                if spi not in allowed:
+                    yield ('M-del', 'unjustified-child-delete:%s' % sa.state.name,
+                           '%s starts deleting CHILD_SA %s after %s although it neither expired nor was replaced or '
+                           'just created by the exchange that ended (IKE_SA was in %s)' % (
+                               d.sender, spi.hex(), P.ev_label(pre, ev), sa.state.name))
 
 
 # ------------------------------------------------------------------ drain oracle as a state monitor
